@@ -406,6 +406,30 @@ async def run_scenario(w: World):
             # let the current child end with the given outcome
             Path(w.ctl + '.tmp').write_text(step[1])
             os.replace(w.ctl + '.tmp', w.ctl)
+        elif op == 'wait_child_in_script':
+            # until the current child has begun to execute the script body (it appends a line to the id file)
+            t_end = time.time() + (step[1] if len(step) > 1 else 20.0)
+            def n_ids():
+                try:
+                    return len([x for x in Path(w.ctl + '.id').read_text().split('\n') if x])
+                except FileNotFoundError:
+                    return 0
+            want = getattr(w, 'ids_seen', 0) + 1
+            while n_ids() < want and time.time() < t_end:
+                await asyncio.sleep(0.01)
+            w.ids_seen = n_ids()
+            if w.ids_seen < want:
+                w.log(k='child_not_in_script')
+        elif op == 'wait_ctl_ack':
+            t_end = time.time() + (step[1] if len(step) > 1 else 20.0)
+            while not os.path.exists(w.ctl + '.ack') and time.time() < t_end:
+                await asyncio.sleep(0.01)
+        elif op == 'wait_prompt_open':
+            t_end = time.time() + (step[1] if len(step) > 1 else 20.0)
+            while not w.open_prompts and time.time() < t_end:
+                await asyncio.sleep(0.01)
+            if not w.open_prompts:
+                w.log(k='no_prompt_opened')
         elif op == 'wait_child_exit':
             t_end = time.time() + (step[1] if len(step) > 1 else 6.0)
             while w.alive() and time.time() < t_end:
